@@ -6,6 +6,7 @@ package redact
 
 /*@
 import origFmt "fmt"
+import i "github.com/cockroachdb/redact/interfaces"
 import fmtforward "github.com/cockroachdb/redact/internal/fmtforward"
 
 -- C14: under the standard fmt package Safe(x) and Unsafe(x) print exactly like x: the wrapper's Format method makes
@@ -25,6 +26,14 @@ func (w safeWrapper) Format(s origFmt.State, verb rune)
   may-panic
   modifies alloc, memU, fstage, eplus, eminus, esharp, espace, ezero, ehasw, ew, ehasp, ep, everb, glastn, gw, gwp, gp, gpp, gfpn, gfpk, gfpa, gfpf, gfpfl, gjv, grf, grfl
   ensures [C14] gfpn == old(gfpn) + 1 && gfpa == w.a && (gjv ==> gfpk == 1) && (!gjv ==> gfpk == 2 && sameView(gfpf, grf) && gfpfl == grfl)
+
+func Safe(a interface{}) (r i.SafeValue)
+  modifies alloc
+  ensures [C06] hasType(r, "redact.safeWrapper")
+
+func Unsafe(a interface{}) (r interface{})
+  modifies alloc
+  ensures [C06] hasType(r, "redact.unsafeWrap")
 
 func (w unsafeWrap) GetValue() (r interface{})
   modifies nothing
